@@ -52,6 +52,15 @@ func fastaRows(rows [][]int) []byte {
 	return b.Bytes()
 }
 
+func phylipRows(rows [][]int) []byte {
+	var b bytes.Buffer
+	fmt.Fprintf(&b, "   %d   %d\n", len(rows), len(rows[0]))
+	for i, r := range rows {
+		fmt.Fprintf(&b, "s%d  %s\n", i, string(i2b(r)))
+	}
+	return b.Bytes()
+}
+
 // parseDistText reads the matrix `compute distance` prints (count, then name and tab-separated entries per row).  The
 // entries keep the decimal text the command printed (12 decimals; NaN and +Inf as Go prints them).
 func parseDistText(out string, n int) ([][]string, bool) {
